@@ -697,7 +697,7 @@ def _lex_table(ctx):
         ctx.compare({"kind": "lex", "s": s}, bool(XS_DECIMAL.match(s.strip(" \t\r\n"))), m, "oracle regex vs CR.Xsd.isDecimal")
 
 
-def run(ctx, docs=110, numbers=2500, mutants=8):
+def run(ctx, docs=260, numbers=4000, mutants=8):
     for p in sorted(glob.glob(os.path.join(CORPUS_DIR, "C03", "*.json"))):
         run_case(ctx, json.load(open(p)))
     _lex_table(ctx)
